@@ -750,6 +750,65 @@ impl AdvancePositions {
     }
 }
 
+/// Verification hooks (feature `verif-hooks`): read-only views of the private fields so the
+/// external harness can compare the built tables and the sequential-cursor state with its model.
+#[cfg(feature = "verif-hooks")]
+impl AdvancePositions {
+    /// `[next_open_idx, adv_cumulative, ib_word_idx, ib_ones_before, last_ib_arg, last_ib_result]`.
+    pub fn verif_cursor_state(&self) -> [usize; 6] {
+        let c = self.cursor.get();
+        [
+            c.next_open_idx,
+            c.adv_cumulative,
+            c.ib_word_idx,
+            c.ib_ones_before,
+            c.last_ib_arg,
+            c.last_ib_result,
+        ]
+    }
+
+    /// `(ib_words, ib_len, ib_rank, ib_select_samples, ib_ones, advance_words, num_opens, advance_rank)`.
+    #[allow(clippy::type_complexity)]
+    pub fn verif_dump(
+        &self,
+    ) -> (
+        Vec<u64>,
+        usize,
+        Vec<u32>,
+        Vec<u32>,
+        usize,
+        Vec<u64>,
+        usize,
+        Vec<u32>,
+    ) {
+        (
+            self.ib_words.clone(),
+            self.ib_len,
+            self.ib_rank.clone(),
+            self.ib_select_samples.clone(),
+            self.ib_ones,
+            self.advance_words.clone(),
+            self.num_opens,
+            self.advance_rank.clone(),
+        )
+    }
+}
+
+/// Verification hooks (feature `verif-hooks`): the iteration cursor's private fields.
+#[cfg(feature = "verif-hooks")]
+impl AdvancePositionsCursor<'_> {
+    /// `[open_idx, text_pos, advance_rank, ib_word_idx, ib_remaining_bits]`.
+    pub fn verif_state(&self) -> [u64; 5] {
+        [
+            self.open_idx as u64,
+            self.text_pos as u64,
+            self.advance_rank as u64,
+            self.ib_word_idx as u64,
+            self.ib_remaining_bits,
+        ]
+    }
+}
+
 impl AdvancePositionsCursor<'_> {
     /// Returns the current text position, or `None` if exhausted.
     #[inline]
